@@ -225,4 +225,85 @@ theorem size_set_bi (x : UInt16) (v : Bool) : flagSize (setBlockIndependence x v
 theorem bc_set_bi (x : UInt16) (v : Bool) : flagBlockChecksum (setBlockIndependence x v) = flagBlockChecksum x := by bitlaw
 theorem get_set_bi (x : UInt16) (v : Bool) : flagBlockIndependence (setBlockIndependence x v) = v := by bitlaw
 
+/-! `VersionSet` / `BlockSizeIndexSet` (what `FrameDescriptor.initW` and the options apply) leave the four option
+flags as they were, for every word and every argument. -/
+
+theorem n192 : (~~~(192 : UInt16)).toNat = 65343 := by decide
+theorem n28672 : (~~~(28672 : UInt16)).toNat = 36863 := by decide
+
+theorem shl_low (a : UInt16) (s k : Nat) (hs : s < 16) (hk : k < s) : ((a <<< s.toUInt16).toNat).testBit k = false := by
+  rw [UInt16.toNat_shiftLeft]
+  have hs' : s.toUInt16.toNat % 16 = s := by
+    simp only [Nat.toUInt16_eq, UInt16.toNat_ofNat']; omega
+  rw [hs']
+  show Nat.testBit ((a.toNat <<< s) % 2^16) k = false
+  rw [Nat.testBit_mod_two_pow, Nat.testBit_shiftLeft]
+  have : ¬ (k ≥ s) := by omega
+  simp [this]
+
+theorem cc_set_version (x : UInt16) (v : UInt16) : flagContentChecksum (setVersion x v) = flagContentChecksum x := by
+  simp only [cc_bit, setVersion, UInt16.toNat_or, UInt16.toNat_and, Nat.testBit_or, Nat.testBit_and, n192]
+  have h := shl_low (v &&& 3) 6 2 (by decide) (by decide)
+  have e : (6 : Nat).toUInt16 = 6 := by decide
+  rw [e] at h
+  rw [h]
+  have : Nat.testBit 65343 2 = true := by decide
+  simp [this]
+theorem cc_set_idx (x : UInt16) (v : UInt8) : flagContentChecksum (setBlockSizeIndex x v) = flagContentChecksum x := by
+  simp only [cc_bit, setBlockSizeIndex, UInt16.toNat_or, UInt16.toNat_and, Nat.testBit_or, Nat.testBit_and, n28672]
+  have h := shl_low ((v).toUInt16 &&& 7) 12 2 (by decide) (by decide)
+  have e : (12 : Nat).toUInt16 = 12 := by decide
+  rw [e] at h
+  rw [h]
+  have : Nat.testBit 36863 2 = true := by decide
+  simp [this]
+theorem size_set_version (x : UInt16) (v : UInt16) : flagSize (setVersion x v) = flagSize x := by
+  simp only [size_bit, setVersion, UInt16.toNat_or, UInt16.toNat_and, Nat.testBit_or, Nat.testBit_and, n192]
+  have h := shl_low (v &&& 3) 6 3 (by decide) (by decide)
+  have e : (6 : Nat).toUInt16 = 6 := by decide
+  rw [e] at h
+  rw [h]
+  have : Nat.testBit 65343 3 = true := by decide
+  simp [this]
+theorem size_set_idx (x : UInt16) (v : UInt8) : flagSize (setBlockSizeIndex x v) = flagSize x := by
+  simp only [size_bit, setBlockSizeIndex, UInt16.toNat_or, UInt16.toNat_and, Nat.testBit_or, Nat.testBit_and, n28672]
+  have h := shl_low ((v).toUInt16 &&& 7) 12 3 (by decide) (by decide)
+  have e : (12 : Nat).toUInt16 = 12 := by decide
+  rw [e] at h
+  rw [h]
+  have : Nat.testBit 36863 3 = true := by decide
+  simp [this]
+theorem bc_set_version (x : UInt16) (v : UInt16) : flagBlockChecksum (setVersion x v) = flagBlockChecksum x := by
+  simp only [bc_bit, setVersion, UInt16.toNat_or, UInt16.toNat_and, Nat.testBit_or, Nat.testBit_and, n192]
+  have h := shl_low (v &&& 3) 6 4 (by decide) (by decide)
+  have e : (6 : Nat).toUInt16 = 6 := by decide
+  rw [e] at h
+  rw [h]
+  have : Nat.testBit 65343 4 = true := by decide
+  simp [this]
+theorem bc_set_idx (x : UInt16) (v : UInt8) : flagBlockChecksum (setBlockSizeIndex x v) = flagBlockChecksum x := by
+  simp only [bc_bit, setBlockSizeIndex, UInt16.toNat_or, UInt16.toNat_and, Nat.testBit_or, Nat.testBit_and, n28672]
+  have h := shl_low ((v).toUInt16 &&& 7) 12 4 (by decide) (by decide)
+  have e : (12 : Nat).toUInt16 = 12 := by decide
+  rw [e] at h
+  rw [h]
+  have : Nat.testBit 36863 4 = true := by decide
+  simp [this]
+theorem bi_set_version (x : UInt16) (v : UInt16) : flagBlockIndependence (setVersion x v) = flagBlockIndependence x := by
+  simp only [bi_bit, setVersion, UInt16.toNat_or, UInt16.toNat_and, Nat.testBit_or, Nat.testBit_and, n192]
+  have h := shl_low (v &&& 3) 6 5 (by decide) (by decide)
+  have e : (6 : Nat).toUInt16 = 6 := by decide
+  rw [e] at h
+  rw [h]
+  have : Nat.testBit 65343 5 = true := by decide
+  simp [this]
+theorem bi_set_idx (x : UInt16) (v : UInt8) : flagBlockIndependence (setBlockSizeIndex x v) = flagBlockIndependence x := by
+  simp only [bi_bit, setBlockSizeIndex, UInt16.toNat_or, UInt16.toNat_and, Nat.testBit_or, Nat.testBit_and, n28672]
+  have h := shl_low ((v).toUInt16 &&& 7) 12 5 (by decide) (by decide)
+  have e : (12 : Nat).toUInt16 = 12 := by decide
+  rw [e] at h
+  rw [h]
+  have : Nat.testBit 36863 5 = true := by decide
+  simp [this]
+
 end Lz4V.Props.Leaf
